@@ -38,6 +38,8 @@ PROPERTY C03_Green
 PROPERTY C08_FF
 PROPERTY C08_Foreign
 PROPERTY C20_EntryFate
+PROPERTY C06_Gate
+PROPERTY C04_Gate
 PROPERTY C15_ManualKept
 PROPERTY C15_OwnOnly
 PROPERTY C15_LossyRefuses
